@@ -44,7 +44,7 @@ def run(res, tier, seed, replay):
     vpl.proof_stage(res, LIBS)
     exe = vpl.build_harness("c17")
     drv = vpl.build_driver("C17")
-    seeds = [seed] if tier == "quick" else [seed + 1000 * k for k in range(4)]
+    seeds = [seed] if tier == "quick" else [seed + 1000 * k for k in range(3)]
     outs = []
     if replay and replay.get("replay", {}).get("record"):
         outs = [(seed, replay["replay"]["record"] + "\n")]
